@@ -170,18 +170,20 @@ impl Prop for C15 {
             f.push(Family::new(
                 "date",
                 Mode::Full,
-                "every month x days [1, 15, last] x years [2026 (the clock's year: printed without year), 2021, 1999, 2100, 999, 9999] in every language (written d/m/y), and dates in years 7, 50, 68, 69, 99, 100 reached by arithmetic ('d/m/2000 - N years', since a typed two-digit year need not mean that year)",
+                "every month x days [1, 15, last] x years [2026 (the clock's year: printed without year), 2021, 1999, 2100, 999, 9999] in every language (written d/m/y) under default zones UTC, EST, GMT-3:30, GMT+14, and dates in years 7, 50, 68, 69, 99, 100 reached by arithmetic ('d/m/2000 - N years', since a typed two-digit year need not mean that year)",
                 move |ch| {
                     let l = ch.pick(&langs).clone();
+                    let tz = *ch.pick(&[None, Some("EST"), Some("GMT-3:30"), Some("GMT+14")]);
+                    let zcfg = Cfg { tz: tz.map(|s| s.to_string()), ..Default::default() };
                     let y = *ch.pick(&[2026i64, 2021, 1999, 2100, 999, 9999, 7, 50, 68, 69, 99, 100]);
                     let m = 1 + ch.choose(12) as i64;
                     let d = *ch.pick(&[1, 15, cal::days_in_month(y, m).min(28)]);
                     let _ = month_names;
                     if y <= 100 {
                         let word = crate::model::duration::spellings(&l, crate::model::duration::Unit::Year).into_iter().next().unwrap_or_else(|| "years".into());
-                        return Some(Case { kind: "date".into(), cfg: Cfg::default(), lang: l, line: format!("{}/{}/2000 - {} {}", d, m, 2000 - y, word) });
+                        return Some(Case { kind: "date".into(), cfg: zcfg, lang: l, line: format!("{}/{}/2000 - {} {}", d, m, 2000 - y, word) });
                     }
-                    Some(Case { kind: "date".into(), cfg: Cfg::default(), lang: l, line: format!("{}/{}/{}", d, m, y) })
+                    Some(Case { kind: "date".into(), cfg: zcfg, lang: l, line: format!("{}/{}/{}", d, m, y) })
                 },
             ));
         }
